@@ -29,7 +29,10 @@ def snapshot(d):
         for f in files:
             p = os.path.join(base, f)
             if os.path.isfile(p):
-                out[os.path.relpath(p, d)] = open(p, "rb").read()
+                try:
+                    out[os.path.relpath(p, d)] = open(p, "rb").read()
+                except OSError:
+                    pass        # (a file that cannot be read: tamper kind "unreadable")
     return out
 
 
@@ -138,7 +141,7 @@ def gen_ops(rng, present, n):
     return ops, present
 
 
-TAMPERS = [None, None, "edit", "add", "delete", "rename", "rewrite", "excluded", "link_edit", "link_swap", "link_remove", "link_forge", "eol"]
+TAMPERS = [None, None, "edit", "add", "delete", "rename", "rewrite", "excluded", "link_edit", "link_swap", "link_remove", "link_forge", "eol", "unreadable"]
 
 
 def apply_file_tamper(rng, work, kind, opts=None):
@@ -155,6 +158,13 @@ def apply_file_tamper(rng, work, kind, opts=None):
             where = rng.choice(look or dirs) + "/"
         with open(os.path.join(work, where + "injected.bin"), "w") as f:
             f.write("evil\n")
+        return True
+    if kind == "unreadable":
+        # a file is added that exists and cannot be read (an I/O error on read, for every user): the final product differs
+        # from what the last step recorded, whether or not the verifier manages to hash the file
+        if not os.path.exists("/proc/self/mem"):
+            return False
+        os.symlink("/proc/self/mem", os.path.join(work, "dropped.bin"))
         return True
     if kind == "excluded":
         junk = opts["exclude"][2] if opts and opts.get("exclude") else "cache.pyc"
@@ -255,7 +265,9 @@ class Honest:
             # (relative, like the metadata directory below: the tools are called from the history's root)
             kw["base_path"] = rng.choice([self.work, "work", "work"])
         links_arg = rng.choice([self.links, "links"]) if opts["base"] else self.links
-        file_tampers = ("edit", "add", "delete", "rename", "rewrite", "excluded", "eol")
+        file_tampers = ("edit", "add", "delete", "rename", "rewrite", "excluded", "eol", "unreadable")
+        if tamper == "unreadable":
+            tamper_at = n_steps          # (in the final product: the steps themselves are carried out honestly)
         try:
             # with a base path the tools are called from another directory; the command changes into the tree itself
             os.chdir(self.root if opts["base"] else self.work)
